@@ -424,6 +424,14 @@ please run fix from a clean state to support the use of git to undo, or use --fo
 	}
 
 	if !params.dryRun {
+		// create the directories for moved files before anything is removed, as the
+		// files would be lost if this turns out to be impossible only later
+		for _, file := range fileProvider.ModifiedFiles() {
+			if err = os.MkdirAll(filepath.Dir(file), 0o755); err != nil {
+				return fmt.Errorf("failed to create directory for file %s: %w", file, err)
+			}
+		}
+
 		for _, file := range fileProvider.DeletedFiles() {
 			err := os.Remove(file)
 			if err != nil {
